@@ -24,7 +24,7 @@ RULE = ("(A) random all-explicit workloads (multi-BC model from velocity points,
         "non-trivial when the assignment differs from the defaults")
 MUST_OBSERVE = ["workloads", "assignments_compared", "preset_imperial", "preset_metric", "preset_mixed", "numbers_compared", "staged_sessions_compared",
                 "sites_checked", "site_values_zero", "site_values_negative", "site_values_positive", "both_raised_same",
-                "sfp_workloads", "sites_distinct"]
+                "sfp_workloads", "sites_distinct", "winds_ended_by_max_distance_feet"]
 ASSUMPTIONS = ["fire(trajectory_step=0) is the documented default 'no step given': bare 0 there is compared with omitting the "
                "argument, not with Distance(0)",
                "danger_space(target_height=bare) is accepted in either the distance or the target_height slot's unit (the "
@@ -81,6 +81,7 @@ def workload(w, stages=None):
     switch()
     atmo = Atmo(Distance.Meter(w["alt_m"]), Pressure.MmHg(w["p_mmhg"]), Temperature.Rankin(w["t_r"]), w["rh"], Temperature.Fahrenheit(w["powder_f"]))
     out["atmo"] = (atmo.density_ratio, atmo._mach, atmo._t0, atmo._p0, atmo._a0, snap(atmo.powder_temp))  # pylint: disable=protected-access
+    out["atmo_public"] = (snap(atmo.mach), snap(atmo.altitude), snap(atmo.pressure), snap(atmo.temperature), atmo.density_metric, atmo.density_imperial)
     out["icao"] = snap(Atmo.icao(Distance.Kilometer(w["alt_m"] / 1000.0)))
     switch()
     sight = Sight(w["plane"], Distance.Yard(w["scale_yd"]), Angular.MOA(w["h_click_moa"]), Angular.CmPer100m(w["v_click_cm100"]))
@@ -89,6 +90,13 @@ def workload(w, stages=None):
     for sp, oc, until in w["winds"]:
         switch()
         winds.append(Wind(Velocity.KT(sp), Angular.OClock(oc), Distance.Meter(until)))
+    if w.get("wind_max_ft"):
+        # the rarely used keyword: the wind's default end, a number of feet by name and documentation
+        switch()
+        sp, oc, max_ft = w["wind_max_ft"]
+        winds.append(Wind(Velocity.KT(sp), Angular.OClock(oc), max_distance_feet=max_ft))
+        out["wind_end_from_max_distance_feet"] = (snap(winds[-1].until_distance), (winds[-1].until_distance >> Distance.Foot) - max_ft == 0
+                                                  or abs((winds[-1].until_distance >> Distance.Foot) - max_ft) <= 1e-9 * max_ft)
     switch()
     shot = Shot(weapon, ammo, Angular.Thousandth(w["look_ths"]), Angular.InchesPer100Yd(w["rel_iphy"]), Angular.Degree(w["cant_deg"]), atmo, winds)
     calc = Calculator()
@@ -139,6 +147,11 @@ def check_workload(ctx, case):
     assign("defaults")
     ref = workload(w)
     ctx.count("workloads")
+    if w.get("wind_max_ft"):
+        ctx.count("winds_ended_by_max_distance_feet")
+        if not ref["wind_end_from_max_distance_feet"][1]:
+            ctx.violation("wind.max_distance_feet", f"Wind(max_distance_feet={w['wind_max_ft'][2]}) ends at {unhex(ref['wind_end_from_max_distance_feet'][0][2])} "
+                                                    f"inches, not at that many feet", {"kind": "workload", "workload": w, "assignments": ["defaults"]})
     if w["plane"] == "SFP":
         ctx.count("sfp_workloads")
     n = count_numbers(ref)
@@ -190,6 +203,7 @@ def gen_workload(rng):
             "h_click_moa": rng.choice([0.25, 0.125, 0.5]), "v_click_cm100": rng.choice([1.0, 0.5, 0.7]),
             "sight_cm": round(rng.uniform(0, 9), 1), "twist_mm": rng.choice([0.0, 254.0, -203.2]), "zero_mrad": round(rng.uniform(-1, 3), 3),
             "winds": _winds(rng),
+            "wind_max_ft": [round(rng.uniform(5, 20), 1), rng.choice([3.0, 9.0]), round(rng.uniform(100, 1200), 0)] if rng.random() < 0.4 else None,
             "look_ths": round(rng.uniform(-300, 300), 1), "rel_iphy": round(rng.uniform(-20, 80), 1), "cant_deg": rng.choice([0.0, round(rng.uniform(-30, 30), 1)]),
             "zero_m": rng.choice([50.0, 100.0, 300.0]), "range_mi": round(rng.uniform(0.1, 0.5), 3), "step_line": round(rng.uniform(5000, 40000), 0),
             "ds_at_nmi": round(rng.uniform(0.02, 0.2), 3), "ds_h_ft": round(rng.uniform(0.3, 6), 2), "ds_look_mil": round(rng.uniform(-100, 100), 0),
